@@ -75,23 +75,49 @@ package nom
 //@ model MomentumTransaction verified bool
 
 // ---- C13: the protobuf codec (storage and wire form) preserves every field, hence the hash -----------------------------------
-// Stated for a block without descendants (the descendants go through the same two functions recursively) whose amount is in
-// the range the verifier admits. For Amount == nil the encoder emits 32 zero bytes and the decoder yields 0: equal hash,
-// different in-memory form - outside this lemma.
-// (contracts marked `inline` describe the recursive calls on descendants only: the outermost call is executed)
-//@ func AccountBlock.Proto(ab) -> (pb)
-//@   inline
-//@   ensures pb != nil && fresh(pb)
-//@   modifies nothing
+//@ spec eqBytes32(h types.Hash, s []byte) bool = len(s) == 32 && (forall j int :: 0 <= j && j < 32 ==> h[j] == s[j])
+//@ spec eqBytes20(a types.Address, s []byte) bool = len(s) == 20 && (forall j int :: 0 <= j && j < 20 ==> a[j] == s[j])
+//@ spec eqBytes10(z types.ZenonTokenStandard, s []byte) bool = len(s) == 10 && (forall j int :: 0 <= j && j < 10 ==> z[j] == s[j])
+//@ spec eqBytes8(n [8]byte, s []byte) bool = len(s) == 8 && (forall j int :: 0 <= j && j < 8 ==> n[j] == s[j])
+//@ spec protoWellFormed(pb *AccountBlockProto) bool = pb != nil && pb.Hash != nil && pb.PreviousHash != nil && pb.FromBlockHash != nil && pb.ChangesHash != nil && pb.MomentumAcknowledged != nil && pb.MomentumAcknowledged.Hash != nil && pb.Address != nil && pb.ToAddress != nil
+
+// Decoding: every field of the block is the like-named field of the message (fixed-size fields byte for byte; the amount as
+// the big-endian magnitude of its bytes). It panics on a message with a missing or wrongly sized fixed-size field.
 //@ func DeProtoAccountBlock(pb) -> (ab)
-//@   inline
-//@   ensures ab != nil && fresh(ab)
+//@   requires protoWellFormed(pb)
+//@   requires[nesting-depth-at-most-one] forall k int :: 0 <= k && k < len(pb.DescendantBlocks) ==> protoWellFormed(pb.DescendantBlocks[k]) && len(pb.DescendantBlocks[k].DescendantBlocks) == 0
+//@   ensures[scalars] ab != nil && fresh(ab) && ab.Version == pb.Version && ab.ChainIdentifier == pb.ChainIdentifier && ab.BlockType == pb.BlockType && ab.Height == pb.Height && ab.FusedPlasma == pb.FusedPlasma && ab.Difficulty == pb.Difficulty && ab.BasePlasma == pb.BasePlasma && ab.TotalPlasma == pb.TotalPlasma && ab.MomentumAcknowledged.Height == pb.MomentumAcknowledged.Height
+//@   ensures[hashes] eqBytes32(ab.Hash, pb.Hash.Hash) && eqBytes32(ab.PreviousHash, pb.PreviousHash.Hash) && eqBytes32(ab.FromBlockHash, pb.FromBlockHash.Hash) && eqBytes32(ab.ChangesHash, pb.ChangesHash.Hash) && eqBytes32(ab.MomentumAcknowledged.Hash, pb.MomentumAcknowledged.Hash.Hash)
+//@   ensures[addresses] eqBytes20(ab.Address, pb.Address.Address) && eqBytes20(ab.ToAddress, pb.ToAddress.Address) && eqBytes10(ab.TokenStandard, pb.TokenStandard)
+//@   ensures[nonce] eqBytes8(ab.Nonce.Data, pb.Nonce)
+//@   ensures[byte-strings] ab.Data.arr == pb.Data.arr && ab.Data.off == pb.Data.off && len(ab.Data) == len(pb.Data) && ab.PublicKey.arr == pb.PublicKey.arr && ab.PublicKey.off == pb.PublicKey.off && len(ab.PublicKey) == len(pb.PublicKey) && ab.Signature.arr == pb.Signature.arr && ab.Signature.off == pb.Signature.off && len(ab.Signature) == len(pb.Signature)
+//@   ensures[amount] ab.Amount != nil && fresh(ab.Amount) && val(ab.Amount) == ite(len(pb.Amount) == 0, 0, bebytes(pb.Amount))
+//@   ensures[descendant-count] len(ab.DescendantBlocks) == len(pb.DescendantBlocks)
 //@   modifies nothing
 
+// Encoding: the mirror image. (Fixed-size fields are emitted as slices of the block's own arrays.)
+//@ func AccountBlock.Proto(ab) -> (pb)
+//@   requires ab != nil
+//@   requires[nesting-depth-at-most-one] forall k int :: 0 <= k && k < len(ab.DescendantBlocks) ==> ab.DescendantBlocks[k] != nil && len(ab.DescendantBlocks[k].DescendantBlocks) == 0
+//@   ensures[scalars] protoWellFormed(pb) && fresh(pb) && pb.Version == ab.Version && pb.ChainIdentifier == ab.ChainIdentifier && pb.BlockType == ab.BlockType && pb.Height == ab.Height && pb.FusedPlasma == ab.FusedPlasma && pb.Difficulty == ab.Difficulty && pb.BasePlasma == ab.BasePlasma && pb.TotalPlasma == ab.TotalPlasma && pb.MomentumAcknowledged.Height == ab.MomentumAcknowledged.Height
+//@   ensures[hashes] eqBytes32(ab.Hash, pb.Hash.Hash) && eqBytes32(ab.PreviousHash, pb.PreviousHash.Hash) && eqBytes32(ab.FromBlockHash, pb.FromBlockHash.Hash) && eqBytes32(ab.ChangesHash, pb.ChangesHash.Hash) && eqBytes32(ab.MomentumAcknowledged.Hash, pb.MomentumAcknowledged.Hash.Hash)
+//@   ensures[addresses] eqBytes20(ab.Address, pb.Address.Address) && eqBytes20(ab.ToAddress, pb.ToAddress.Address) && eqBytes10(ab.TokenStandard, pb.TokenStandard)
+//@   ensures[nonce] eqBytes8(ab.Nonce.Data, pb.Nonce)
+//@   ensures[byte-strings] ab.Data.arr == pb.Data.arr && ab.Data.off == pb.Data.off && len(ab.Data) == len(pb.Data) && ab.PublicKey.arr == pb.PublicKey.arr && ab.PublicKey.off == pb.PublicKey.off && len(ab.PublicKey) == len(pb.PublicKey) && ab.Signature.arr == pb.Signature.arr && ab.Signature.off == pb.Signature.off && len(ab.Signature) == len(pb.Signature)
+//@   ensures[amount] bytesval(pb.Amount) == common.big32enc(ite(ab.Amount == nil, 0, val(ab.Amount))) && (ab.Amount != nil && 0 <= val(ab.Amount) && val(ab.Amount) < pow2(256) ==> len(pb.Amount) == 32 && bebytes(pb.Amount) == val(ab.Amount))
+//@   ensures[descendant-count] len(pb.DescendantBlocks) == len(ab.DescendantBlocks)
+//@   modifies S:*chain/nom.AccountBlockProto
+//@   loop 1
+//@     invariant len(pb.DescendantBlocks) == rangeindex + 1
+
+// Round trip, for a block whose amount is in the range the verifier admits (for Amount == nil the encoder emits 32 zero bytes
+// and the decoder yields 0: equal hash, different in-memory form - outside this lemma) and whose descendants carry none.
 //@ lemma account_block_proto_roundtrip
 //@   vars ab *AccountBlock
-//@   assume ab != nil && ab.Amount != nil && 0 <= val(ab.Amount) && val(ab.Amount) < pow2(256) && len(ab.DescendantBlocks) == 0
+//@   assume ab != nil && ab.Amount != nil && 0 <= val(ab.Amount) && val(ab.Amount) < pow2(256)
+//@   assume forall k int :: 0 <= k && k < len(ab.DescendantBlocks) ==> ab.DescendantBlocks[k] != nil && len(ab.DescendantBlocks[k].DescendantBlocks) == 0
 //@   let pb = ab.Proto()
+//@   assume forall k int :: 0 <= k && k < len(pb.DescendantBlocks) ==> protoWellFormed(pb.DescendantBlocks[k]) && len(pb.DescendantBlocks[k].DescendantBlocks) == 0
 //@   let r = DeProtoAccountBlock(pb)
 //@   assert[scalars] r != nil && r.Version == ab.Version && r.ChainIdentifier == ab.ChainIdentifier && r.BlockType == ab.BlockType && r.Height == ab.Height && r.FusedPlasma == ab.FusedPlasma && r.Difficulty == ab.Difficulty && r.BasePlasma == ab.BasePlasma && r.TotalPlasma == ab.TotalPlasma
 //@   assert[hashes] r.Hash == ab.Hash && r.PreviousHash == ab.PreviousHash && r.FromBlockHash == ab.FromBlockHash && r.ChangesHash == ab.ChangesHash && r.MomentumAcknowledged.Hash == ab.MomentumAcknowledged.Hash && r.MomentumAcknowledged.Height == ab.MomentumAcknowledged.Height
@@ -99,4 +125,5 @@ package nom
 //@   assert[nonce] r.Nonce.Data == ab.Nonce.Data
 //@   assert[byte-strings] bytesval(r.Data) == bytesval(ab.Data) && bytesval(r.PublicKey) == bytesval(ab.PublicKey) && bytesval(r.Signature) == bytesval(ab.Signature)
 //@   assert[amount] r.Amount != nil && val(r.Amount) == val(ab.Amount)
-//@   assert[no-descendants] len(r.DescendantBlocks) == 0
+//@   assert[descendant-count] len(r.DescendantBlocks) == len(ab.DescendantBlocks)
+//@   assert[same-hash] abHashUF(r.Version, r.ChainIdentifier, r.BlockType, r.PreviousHash, r.Height, r.MomentumAcknowledged.Hash, r.MomentumAcknowledged.Height, r.Address, r.ToAddress, val(r.Amount), r.TokenStandard, r.FromBlockHash, 0, bytesval(r.Data), r.FusedPlasma, r.Difficulty, r.Nonce.Data) == abHashUF(ab.Version, ab.ChainIdentifier, ab.BlockType, ab.PreviousHash, ab.Height, ab.MomentumAcknowledged.Hash, ab.MomentumAcknowledged.Height, ab.Address, ab.ToAddress, val(ab.Amount), ab.TokenStandard, ab.FromBlockHash, 0, bytesval(ab.Data), ab.FusedPlasma, ab.Difficulty, ab.Nonce.Data)
